@@ -482,7 +482,11 @@ h2_send_refused_stream (uint32_t h2id, connection * const con)
                 /* check that stream response will not be blocked waiting
                  * for stream WINDOW_UPDATE or connection WINDOW_UPDATE */
                 request_st * const h2r = &con->request;
-                if (r->x.h2.swin <= 0 || h2r->x.h2.swin <= 0) continue;
+                /*(h2_send_cqdata() sends nothing while the usable window is
+                 * below 2048 and at least that much is pending; deferring this
+                 * HEADERS frame then would wait for WINDOW_UPDATE frames that
+                 * sit unread behind it in the read queue: deadlock)*/
+                if (r->x.h2.swin < 2048 || h2r->x.h2.swin < 2048) continue;
 
                 /* no pending request body; at least this request may proceed,
                  * though others waiting for request body may block until new
